@@ -486,7 +486,7 @@ package actions
 //@   property C06
 //@   uses tables notifyspec
 //@   requires tx != nil
-//@   requires source_outstanding: deliveries.exists(data.DeliveryID) && deliveries.completed_at$null(data.DeliveryID) && deliveries.expires_at(data.DeliveryID) > now &&
+//@   requires source_outstanding: deliveries.exists(data.DeliveryID) && deliveries.completed_at$null(data.DeliveryID) &&
 //@            deliveries.message_id(data.DeliveryID) == data.DeliveryMessageID && deliveries.subscription_id(data.DeliveryID) == data.DeliverySubscriptionID &&
 //@            messages.exists(data.DeliveryMessageID)
 //@   ensures retired: err == nil ==> deliveries.exists(data.DeliveryID) && !deliveries.completed_at$null(data.DeliveryID)
@@ -645,4 +645,67 @@ package actions
 //@                 ite(old(dl_exhausted(cur(deliveries[k].ID))), delivery_retired(deliveries[k].ID), rescheduled(deliveries[k].ID, now))
 //@     invariant pending: forall k int :: {deliveries[k]} idx < k && k < len(deliveries) ==> delivery_unchanged(deliveries[k].ID)
 //@     invariant others: forall d Id :: {deliveries.completed_at$null(d)} old(deliveries.exists(d)) ==> delivery_unchanged(d) || (exists k int :: 0 <= k && k <= idx && deliveries[k].ID == d)
+//@     invariant !dbfailed() || old(dbfailed())
+
+// ---- C04 / C02 / C14 / C06: handing out the candidates of one pull. Every candidate is either skipped (byte budget),
+// retired through the dead-letter routine (attempts used up, full dead-letter configuration) or handed out: it
+// appears once in the results with the stored message's content and attempt number old+1, its row gets attempts+1 and
+// a new lease attempt_at = now + min(max, min x 1.1^(old+1)) + jitter < 1 s and stays open; no other existing delivery
+// changes; the subscription's expiry is pushed to now + ttl.
+//@ func (*GetSubscriptionMessages).applyResults(a, ctx, tx, sub, deliveries) (err)
+//@   property C04 C02 C14 C06
+//@   uses tables notifyspec backoff
+//@   requires a != nil && tx != nil && sub != nil && deliveries_wf() && a.params.MaxMessages >= 1
+//@   requires sub_row: subscriptions.exists(sub.ID) && sub.TTL == subscriptions.ttl(sub.ID)
+//@   requires [C04] policy_domain: effmax(sub) <= 8640000000000000
+//@   requires candidates: forall k int :: {deliveries[k]} 0 <= k && k < len(deliveries) ==> deliveries[k] != nil && deliveries[k].Edges.Message != nil &&
+//@              deliveries.exists(deliveries[k].ID) && deliveries.completed_at$null(deliveries[k].ID) && deliveries.subscription_id(deliveries[k].ID) == sub.ID &&
+//@              deliveries[k].SubscriptionID == sub.ID && deliveries[k].Attempts == deliveries.attempts(deliveries[k].ID) && deliveries[k].MessageID == deliveries.message_id(deliveries[k].ID) &&
+//@              deliveries[k].Edges.Message.ID == deliveries[k].MessageID && messages.exists(deliveries[k].MessageID)
+//@   requires candidates_distinct: forall k1 int, k2 int :: {deliveries[k1], deliveries[k2]} 0 <= k1 && k1 < k2 && k2 < len(deliveries) ==> deliveries[k1].ID != deliveries[k2].ID
+//@   ensures handed_out: [C04 C02] err == nil ==> a.results != nil && (exists now clock :: forall j int :: {a.results.Deliveries[j]} 0 <= j && j < len(a.results.Deliveries) ==>
+//@             a.results.Deliveries[j] != nil && leased(a.results.Deliveries[j].ID, now, sub) && a.results.Deliveries[j].NumAttempts == old(deliveries.attempts(cur(a.results.Deliveries[j].ID))) + 1 &&
+//@             (exists k int :: 0 <= k && k < len(deliveries) && deliveries[k].ID == a.results.Deliveries[j].ID && a.results.Deliveries[j].MessageID == deliveries[k].Edges.Message.ID &&
+//@                a.results.Deliveries[j].Payload == deliveries[k].Edges.Message.Payload && a.results.Deliveries[j].Attributes == deliveries[k].Edges.Message.Attributes &&
+//@                a.results.Deliveries[j].OrderKey == deliveries[k].Edges.Message.OrderKey && a.results.Deliveries[j].PublishedAt == deliveries[k].Edges.Message.PublishedAt))
+//@   ensures bounded: [C02] err == nil ==> len(a.results.Deliveries) <= a.params.MaxMessages
+//@   ensures once: [C02] err == nil ==> (forall j1 int, j2 int :: {a.results.Deliveries[j1], a.results.Deliveries[j2]} 0 <= j1 && j1 < j2 && j2 < len(a.results.Deliveries) ==> a.results.Deliveries[j1].ID != a.results.Deliveries[j2].ID)
+//@   ensures others: [C04 C02 C06] err == nil ==> exists now clock :: (forall d Id :: {deliveries.completed_at$null(d)} old(deliveries.exists(d)) ==>
+//@             delivery_unchanged(d) || leased(d, now, sub) ||
+//@             (delivery_retired(d) && sub.MaxDeliveryAttempts != nil && sub.DeadLetterTopicID != nil && deref(sub.MaxDeliveryAttempts) > 0 && old(deliveries.attempts(d)) >= deref(sub.MaxDeliveryAttempts)))
+//@   ensures expiry_refreshed: [C14] err == nil ==> exists now clock :: subscriptions.expires_at(sub.ID) == now + sub.TTL
+//@   ensures no_swallowed_failure: [C09] dbfailed() && !old(dbfailed()) ==> err != nil
+//@   modifies T:subscriptions:expires_at, T:deliveries:*, CB:*, E:*ent.DeliveryCreate:, S:dbfailed, S:wake_on_commit, F:actions.GetSubscriptionMessages:actionBase.results,
+//@            F:actions.getSubscriptionMessagesResults:*, F:actions.SubscriptionMessageDelivery:*, E:*actions.SubscriptionMessageDelivery:, F:actions.deadLetterData:*
+//@   loop 1
+//@     invariant a != nil && tx != nil && sub != nil && results != nil && !allocated(results) && idx < len(deliveries) && 0 <= len(results.Deliveries) && len(results.Deliveries) <= idx + 1
+//@     invariant built: forall j int :: {results.Deliveries[j]} 0 <= j && j < len(results.Deliveries) ==> results.Deliveries[j] != nil && !allocated(results.Deliveries[j]) &&
+//@                 (exists k int :: 0 <= k && k <= idx && deliveries[k].ID == results.Deliveries[j].ID && results.Deliveries[j].NumAttempts == deliveries[k].Attempts + 1 &&
+//@                    results.Deliveries[j].NextAttemptAt + results.Deliveries[j].fuzzDelay - now >= trunc(nominal_backoff(sub, deliveries[k].Attempts + 1)) &&
+//@                    results.Deliveries[j].NextAttemptAt + results.Deliveries[j].fuzzDelay - now < trunc(nominal_backoff(sub, deliveries[k].Attempts + 1)) + 1000000000 &&
+//@                    results.Deliveries[j].MessageID == deliveries[k].Edges.Message.ID && results.Deliveries[j].Payload == deliveries[k].Edges.Message.Payload && results.Deliveries[j].Attributes == deliveries[k].Edges.Message.Attributes &&
+//@                    results.Deliveries[j].OrderKey == deliveries[k].Edges.Message.OrderKey && results.Deliveries[j].PublishedAt == deliveries[k].Edges.Message.PublishedAt)
+//@     invariant count: len(results.Deliveries) == 0 || len(results.Deliveries) < a.params.MaxMessages
+//@     invariant distinct: forall j1 int, j2 int :: {results.Deliveries[j1], results.Deliveries[j2]} 0 <= j1 && j1 < j2 && j2 < len(results.Deliveries) ==> results.Deliveries[j1].ID != results.Deliveries[j2].ID
+//@     invariant untouched: forall j int :: {results.Deliveries[j]} 0 <= j && j < len(results.Deliveries) ==> delivery_unchanged(results.Deliveries[j].ID)
+//@     invariant pending: forall k int :: {deliveries[k]} idx < k && k < len(deliveries) ==> delivery_unchanged(deliveries[k].ID)
+//@     invariant rows: forall d Id :: {deliveries.completed_at$null(d)} old(deliveries.exists(d)) ==> delivery_unchanged(d) ||
+//@                 (delivery_retired(d) && sub.MaxDeliveryAttempts != nil && sub.DeadLetterTopicID != nil && deref(sub.MaxDeliveryAttempts) > 0 && old(deliveries.attempts(d)) >= deref(sub.MaxDeliveryAttempts))
+//@     invariant !dbfailed() || old(dbfailed())
+//@   loop 2
+//@     invariant a != nil && tx != nil && sub != nil && results != nil && idx < len(sortedDeliveries) && len(sortedDeliveries) == len(results.Deliveries)
+//@     invariant same_elems: (forall k int :: {sortedDeliveries[k]} 0 <= k && k < len(sortedDeliveries) ==> sortedDeliveries[k] != nil && contains(results.Deliveries, sortedDeliveries[k])) && (forall j int :: {results.Deliveries[j]} 0 <= j && j < len(results.Deliveries) ==> contains(sortedDeliveries, results.Deliveries[j]))
+//@     invariant sdistinct: forall k1 int, k2 int :: {sortedDeliveries[k1], sortedDeliveries[k2]} 0 <= k1 && k1 < k2 && k2 < len(sortedDeliveries) ==> sortedDeliveries[k1].ID != sortedDeliveries[k2].ID
+//@     invariant sfrom: forall k int :: {sortedDeliveries[k]} 0 <= k && k < len(sortedDeliveries) ==> (exists m int :: 0 <= m && m < len(deliveries) && deliveries[m].ID == sortedDeliveries[k].ID && sortedDeliveries[k].NumAttempts == deliveries[m].Attempts + 1 &&
+//@                 sortedDeliveries[k].NextAttemptAt + sortedDeliveries[k].fuzzDelay - now >= trunc(nominal_backoff(sub, deliveries[m].Attempts + 1)) &&
+//@                 sortedDeliveries[k].NextAttemptAt + sortedDeliveries[k].fuzzDelay - now < trunc(nominal_backoff(sub, deliveries[m].Attempts + 1)) + 1000000000)
+//@     invariant done_open: forall k int :: {sortedDeliveries[k]} 0 <= k && k <= idx ==> deliveries.exists(sortedDeliveries[k].ID) && deliveries.completed_at$null(sortedDeliveries[k].ID) && old(deliveries.completed_at$null(cur(sortedDeliveries[k].ID)))
+//@     invariant done_cols: forall k int :: {sortedDeliveries[k]} 0 <= k && k <= idx ==> deliveries.message_id(sortedDeliveries[k].ID) == old(deliveries.message_id(cur(sortedDeliveries[k].ID))) && deliveries.subscription_id(sortedDeliveries[k].ID) == old(deliveries.subscription_id(cur(sortedDeliveries[k].ID))) &&
+//@                 deliveries.published_at(sortedDeliveries[k].ID) == old(deliveries.published_at(cur(sortedDeliveries[k].ID))) && deliveries.expires_at(sortedDeliveries[k].ID) == old(deliveries.expires_at(cur(sortedDeliveries[k].ID))) &&
+//@                 deliveries.not_before_id$null(sortedDeliveries[k].ID) == old(deliveries.not_before_id$null(cur(sortedDeliveries[k].ID))) && deliveries.not_before_id(sortedDeliveries[k].ID) == old(deliveries.not_before_id(cur(sortedDeliveries[k].ID)))
+//@     invariant done_attempts: forall k int :: {sortedDeliveries[k]} 0 <= k && k <= idx ==> deliveries.attempts(sortedDeliveries[k].ID) == old(deliveries.attempts(cur(sortedDeliveries[k].ID))) + 1
+//@     invariant done_lease: forall k int :: {sortedDeliveries[k]} 0 <= k && k <= idx ==> deliveries.attempt_at(sortedDeliveries[k].ID) == sortedDeliveries[k].NextAttemptAt + sortedDeliveries[k].fuzzDelay
+//@     invariant todo: forall k int :: {sortedDeliveries[k]} idx < k && k < len(sortedDeliveries) ==> delivery_unchanged(sortedDeliveries[k].ID)
+//@     invariant rows: forall d Id :: {deliveries.completed_at$null(d)} old(deliveries.exists(d)) ==> delivery_unchanged(d) || (exists k int :: 0 <= k && k <= idx && sortedDeliveries[k].ID == d) ||
+//@                 (delivery_retired(d) && sub.MaxDeliveryAttempts != nil && sub.DeadLetterTopicID != nil && deref(sub.MaxDeliveryAttempts) > 0 && old(deliveries.attempts(d)) >= deref(sub.MaxDeliveryAttempts))
 //@     invariant !dbfailed() || old(dbfailed())
